@@ -20,7 +20,7 @@ COMPONENTS = {"real": ["torchphysics.utils.user_fun.UserFunction / DomainUserFun
 
 
 def budget(tier):
-    return {"cases": 20000 if tier == "quick" else 600000, "wall": 600 if tier == "quick" else 3300, "shrink": 60, "det_legs": 6}
+    return {"cases": 20000 if tier == "quick" else 600000, "wall": 600 if tier == "quick" else 3000, "shrink": 60, "det_legs": 6}
 
 
 def gen_case(seed, tier="quick"):
